@@ -301,6 +301,29 @@ pub fn check_tagged_and_styles(text: &str, untagged: &CN, stats: &mut Stats) {
             }
             (Some(other), _) => bad("other-type", format!("!!{suffix} {text:?} gives {} (another type)", other.show()), stats),
         }
+        // the same tag written verbatim (`!<tag:yaml.org,2002:int>`) or through a %TAG prefix that cuts
+        // the name elsewhere is the same tag: handle and suffix are only its two halves
+        for (h, sfx) in [("", format!("tag:yaml.org,2002:{suffix}")), ("tag:yaml.org,", format!("2002:{suffix}")), ("tag:yaml.org,2002:i", suffix[1..].to_string())] {
+            if h.ends_with('i') && !suffix.starts_with('i') {
+                continue;
+            }
+            let alt = Tag { handle: h.to_string(), suffix: sfx };
+            if let Ok(g2) = catch(|| Scalar::parse_from_cow_and_metadata(text.into(), ScalarStyle::Plain, Some(&alt)).map(|s| cn_scalar(&s))) {
+                stats.cnt("tag_spelling_readings", 1);
+                let same = match (&got, &g2) {
+                    (Some(CN::Float(a)), Some(CN::Float(b))) => a == b || (a.is_nan() && b.is_nan()),
+                    (a, b) => a == b,
+                };
+                if !same {
+                    viol(
+                        stats,
+                        format!("C08/tag-spelling/{suffix}"),
+                        format!("{text:?} under the tag tag:yaml.org,2002:{suffix} gives {got:?} when the tag is split as `tag:yaml.org,2002:` + `{suffix}` and {g2:?} when split as {:?} + {:?}", alt.handle, alt.suffix),
+                        case_of(text, ScalarStyle::Plain, Some(&alt)),
+                    );
+                }
+            }
+        }
     }
     // !!str, other yaml.org tags and foreign tags leave a string
     for tag in [
